@@ -245,6 +245,10 @@ func vfFieldLen(x any, path string) int {
 	return -1
 }
 
+// vfHeapFieldLen (engine only): sum of len(field) over every allocated struct of the named type;
+// -1 when there is none (natively always -1: callers skip the assertion).
+func vfHeapFieldLen(typeName, path string) int { return -1 }
+
 // vfPeekPath follows named (possibly unexported) fields; ok is false when a name does not exist
 // on this tree (internals renamed): callers then skip the assertion that needed it.
 func vfPeekPath(x any, path string) (reflect.Value, bool) {
@@ -359,14 +363,15 @@ func vfFieldGetUint(x any, path string) uint64 {
 	return uint64(v.Int())
 }
 
-func vfFieldSetUint(x any, path string, val uint64) {
+func vfFieldSetUint(x any, path string, val uint64) bool {
 	v, ok := vfFieldAddr(x, path)
 	if !ok {
-		return
+		return false
 	}
 	if v.CanUint() {
 		v.SetUint(val)
 	} else {
 		v.SetInt(int64(val))
 	}
+	return true
 }
